@@ -76,6 +76,15 @@ def alphabet_models(tier):
             out.append(rt.deviation(base, i, ('attr', ('att%d' % j, v))))
         for nm in ('a b', 'or', '1ab', 'ñu', 'a-b', 'true'):
             out.append(rt.deviation(base, i, ('name', nm)))
+    kids12 = [F('W%d' % i) for i in range(1, 13)]
+    out.append(M(F('Rt', [R(2, 10, kids12)])))
+    out.append(M(F('Rt', [R(10, 12, kids12), R(1, 1, [F('Q1', fcard=(1, 12))]), R(0, 1, [F('Q2', fcard=(10, -1))])])))
+    out.append(M(F('Rt', [R(12, -1, kids12)], fcard=(3, 25))))
+    for j, v in enumerate([2 ** 53 + 1, 2 ** 63 - 1, -9007199254740993, 2 ** 31, 12345678901234567890, 0.30000000000000004, 123456.789,
+                           [2 ** 53 + 1, -2 ** 63 - 1], {'id': 2 ** 63 - 1}]):
+        out.append(rt.deviation(base, 1, ('attr', ('big%d' % j, v))))
+    out.append(cm.on_carrier([('GREATER', 'x.att', 2 ** 53 + 1)]))
+    out.append(cm.on_carrier([('EQUALS', ('ADD', 'x.att', 9007199254740993), -2 ** 63 + 1)]))
     trees = list(sp.trees(1, ['x', 'y', 'z'], OPS))
     k2 = sp.trees(2, ['x', 'y', 'z'], OPS)
     step = max(1, len(k2) // (60 if tier == 'quick' else 400))
